@@ -211,7 +211,7 @@ def fixedFields (p : P) (dc mc : List Nat) : List (Nat × Nat) :=
    (16, 0), (2, Gen.MINOR_VERSION), (2, if p.v4 then Gen.versionNumberV4 else Gen.versionNumberV3),
    (2, Gen.BYTE_ORDER_MARK), (2, if p.v4 then Gen.sectorShiftV4 else Gen.sectorShiftV3),
    (2, Gen.MINI_SECTOR_SHIFT), (6, 0), (4, if p.v4 then dc.length else 0), (4, p.difat.length),
-   (4, p.dirStart), (4, 0), (4, Gen.MINI_STREAM_CUTOFF), (4, p.miniFatStart), (4, mc.length),
+   (4, p.dirStart), (4, p.txSig), (4, Gen.MINI_STREAM_CUTOFF), (4, p.miniFatStart), (4, mc.length),
    (4, p.difatSectorIds.head?.getD END), (4, p.difatSectorIds.length)]
 
 theorem hf_take24 (p : P) (dc mc : List Nat) : (headerFields p dc mc).take 24 = fixedFields p dc mc := by
